@@ -122,6 +122,7 @@ func buildAlphaLike(sp AlphaSpec, autoPrefixes bool) (*Universe, *keyTable) {
 				}
 			}
 			addP(s + "a")
+			addP(s + "\x00") // the terminator byte is not part of the key: nothing starts with key+00 (unless stored as such)
 		}
 	}
 	return u, t
